@@ -11,14 +11,15 @@ import itertools
 import json
 from urllib.parse import parse_qs
 
-from .. import common, genrun, instgen, refmodel, specgen
+from .. import common, genrun, instgen, refmodel, shapes, specgen
 from ..common import Ctx
 
 LEVEL = "exploration"
 SHARDS = {"quick": 16, "thorough": 16}
 FLOOR = {"quick": 900, "thorough": 20000}
 REQUIRED_COUNTERS = ["calls_made", "requests_captured", "query_params_checked", "header_params_checked", "path_params_checked",
-                     "bodies_checked_json", "optional_omitted_checked", "path_level_params_seen"]
+                     "bodies_checked_json", "optional_omitted_checked", "path_level_params_seen", "path_values_needing_encoding",
+                     "raw_path_segments_checked"]
 RULE = ("operations from the grammar (5 HTTP methods; path/query/header parameters incl. path-level ones; required/optional; scalar, "
         "array, enum, date values; JSON/form/multipart/octet bodies) x every subset of the optional arguments (<=4 optionals, sampled "
         "above) x value draws; case = (operation, argument assignment); non-trivial = the call supplies >=1 non-path argument or a body")
@@ -26,6 +27,8 @@ ASSUMPTIONS = ["httpx.MockTransport sees the request as it would leave httpx", "
                "structure_from_dict (C03/C16 decide the converter)"]
 
 PATH_VALUES = ["abc", "A-1_b.c~", "42", "x"]
+# values that need percent-encoding to stay ONE path segment that the server decodes back to the caller's value
+PATH_VALUES_RESERVED = ["two words", "ünï", "a/b", "a?b=c", "a#frag", "100%", "..", ".", "a%2Fb", "semi;colon", "q&a", "plus+sign", "a.b", "..x"]
 TRIGGERS: list[set[str]] = [{"cookie_param"}, {"multi_request_media"}]
 
 
@@ -33,6 +36,8 @@ def value_for(rng, e: dict, d: specgen.Doc):
     k = e["kind"]
     if k == "string":
         if e["in"] == "path":
+            if "path_value_reserved" in d.features and rng.random() < 0.7:
+                return rng.choice(PATH_VALUES_RESERVED)
             return rng.choice(PATH_VALUES)
         if e["in"] in ("header", "cookie"):
             return rng.choice(["v1", "two words", "a=b;c", "W/\"etag\""]) if e["in"] == "header" else rng.choice(["abc123", "tok-9"])
@@ -47,6 +52,19 @@ def value_for(rng, e: dict, d: specgen.Doc):
         return rng.choice(instgen.DATES)
     if k == "enum_ref":
         return rng.choice(d.sexp[e["target"]]["values"])
+    if k == "number":
+        return rng.choice([0.5, -2.25, 1e6, 3.0])
+    if k == "uuid":
+        return rng.choice(["12345678-1234-5678-1234-567812345678", "00000000-0000-0000-0000-000000000001"])
+    if k == "datetime":
+        return rng.choice(instgen.DT)
+    if k == "array_integer":
+        return rng.choice([[1], [0, -7], [3, 2, 1]])
+    if k == "enum_inline":
+        return rng.choice(["asc", "desc", "by-name"])
+    if k == "array_enum_ref":
+        vals = d.sexp[e["target"]]["values"]
+        return [rng.choice(vals) for _ in range(rng.randint(1, 3))]
     raise AssertionError(e)
 
 
@@ -62,6 +80,13 @@ def body_for(rng, b: dict, d: specgen.Doc):
     if m == "multipart/form-data":
         return {"file": rng.choice([b"hello", b"\x00\x01binary"]).hex()}
     return rng.choice([b"raw-bytes", b"\x00\xff"]).hex()
+
+
+def _num_eq(a: str, b: str) -> bool:
+    try:
+        return float(a) == float(b) and ("." in a or "." in b or "e" in a.lower() or "e" in b.lower())
+    except ValueError:
+        return False
 
 
 def make_calls(ctx: Ctx, d: specgen.Doc) -> list[dict]:
@@ -98,6 +123,10 @@ def judge(d: specgen.Doc, call: dict, res: dict, rec, feats, case_base) -> None:
     exp = call["_exp"]
     op = exp["op"]
     case = dict(case_base, call={"seg": call["seg"], "http": call["http"], "args": call["args"]})
+    if any(a["in"] == "path" and str(a["value"]) in (".", "..") for a in exp["supplied"]):
+        feats = list(feats) + ["path_value_dot_segment"]   # a value that IS a dot-segment (RFC 3986 5.2.4)
+    if any(a["in"] == "path" and str(a["value"]) in PATH_VALUES_RESERVED for a in exp["supplied"]):
+        rec.count("path_values_needing_encoding")
     nt = any(a["in"] != "path" for a in exp["supplied"]) or exp["body"] is not None
     rec.case({"doc": common.chash(case_base["doc"]), "call": case["call"]}, nontrivial=nt)
     rec.count("calls_made")
@@ -121,13 +150,31 @@ def judge(d: specgen.Doc, call: dict, res: dict, rec, feats, case_base) -> None:
     rec.count("path_params_checked", sum(1 for a in exp["supplied"] if a["in"] == "path"))
     if q["path"] != ep:
         rec.violation("wire:path", feats, case, f"{q['path']!r} != expected {ep!r}")
+    # structure of the raw request target: one raw segment per template segment, each decoding to the expected text
+    from urllib.parse import unquote
+    raw = q.get("raw_path", "")
+    raw_path_only = raw.split("?", 1)[0]
+    tsegs = op["path"].split("/")
+    vals = {a["name"]: str(a["value"]) for a in exp["supplied"] if a["in"] == "path"}
+    esegs = [vals.get(t[1:-1], t) if t.startswith("{") and t.endswith("}") else t for t in tsegs]
+    rsegs = raw_path_only.split("/")
+    rec.count("raw_path_segments_checked", len(esegs))
+    if len(rsegs) != len(esegs) or any(unquote(r_) != e_ for r_, e_ in zip(rsegs, esegs)):
+        rec.violation("wire:path_structure", feats, case, f"raw target {raw!r}: segments {rsegs} != expected (decoded) {esegs}")
     # query
     eq = sorted(refmodel.expected_query(exp["supplied"]))
     gq = sorted((k, v) for k, v in q["query"])
     rec.count("query_params_checked", len(eq))
-    if gq != eq:
-        missing = [x for x in eq if x not in gq]
-        extra = [x for x in gq if x not in eq]
+    def same(a, b) -> bool:     # a date-time may be spelled differently (Z / +00:00 / fractional zeros), 3.0 may be sent as 3.0 or 3
+        if a == b:
+            return True
+        if a[0] != b[0]:
+            return False
+        return refmodel.jdiff(a[1], b[1]) is None or _num_eq(a[1], b[1])
+
+    if len(gq) != len(eq) or not all(any(same(x, y) for y in gq) for x in eq) or not all(any(same(x, y) for y in eq) for x in gq):
+        missing = [x for x in eq if not any(same(x, y) for y in gq)]
+        extra = [x for x in gq if not any(same(y, x) for y in eq)]
         kinds = sorted({a["kind"] for a in exp["supplied"] if a["in"] == "query" and any(m[0] == a["name"] for m in missing)})
         rec.violation("wire:query" + (":missing" if missing and not extra else ":differs"), feats + [f"qkind_{k}" for k in kinds], case,
                       f"missing {missing} unexpected {extra}")
@@ -139,7 +186,8 @@ def judge(d: specgen.Doc, call: dict, res: dict, rec, feats, case_base) -> None:
         if a["in"] == "header":
             rec.count("header_params_checked")
             got = hdrs.get(a["name"].lower())
-            if got != [refmodel.wire_scalar(a["value"])]:
+            want = refmodel.wire_scalar(a["value"])
+            if got != [want] and not (got and len(got) == 1 and (refmodel.jdiff(want, got[0]) is None or _num_eq(want, got[0]))):
                 rec.violation("wire:header", feats, case, f"{a['name']}: expected [{refmodel.wire_scalar(a['value'])!r}] got {got!r}")
         if a["in"] == "cookie":
             cookies = ";".join(hdrs.get("cookie", []))
@@ -192,6 +240,8 @@ def judge(d: specgen.Doc, call: dict, res: dict, rec, feats, case_base) -> None:
                 rec.violation("wire:body_multipart_part_missing", feats, case, name)
     else:
         rec.count("bodies_checked_octet")
+        if not ct.startswith(m.split(";")[0]):
+            rec.violation("wire:body_content_type:raw", feats, case, f"{ct!r} for a body declared as {m}")
         if raw != bytes.fromhex(exp["body"]):
             rec.violation("wire:body_bytes_differ", feats, case, f"{raw[:50]!r}")
 
@@ -222,11 +272,22 @@ def run_batch(ctx: Ctx, items: list[dict]) -> None:
         if po.get("errors"):
             rec.count("client_construct_errors_diagnostic")
             continue
+        op_feats = getattr(d, "op_feats", None) or it.get("op_feats") or {}
+        if op_feats:
+            case_base["op_feats"] = op_feats
         for c in calls:
             r = po["results"].get(c["id"])
             if r is None:
                 continue
-            judge(d, c, r, rec, feats, case_base)
+            f2 = feats
+            if op_feats:    # shape catalogue: attribute to the shape of THIS operation's body
+                f2 = list(op_feats.get(c["seg"], [])) + ["shapes"]
+                rec.count("shape_bodies_checked")
+                rec.seen("body_shapes_exercised", c["_exp"]["op"].get("shape"))
+            n0 = rec.counters.get("violations_raw", 0)
+            judge(d, c, r, rec, f2, case_base)
+            if op_feats and rec.counters.get("violations_raw", 0) > n0:
+                rec.seen("body_shapes_failing", c["_exp"]["op"].get("shape"))
         if len(rec.samples) < 2 and calls:
             c = calls[0]
             r = po["results"].get(c["id"], {})
@@ -250,7 +311,24 @@ def run_shard(ctx: Ctx) -> None:
             trig = TRIGGERS[0]
         elif r < 0.24:
             trig = TRIGGERS[1]
-        run_batch(ctx, [{"doc": mk_doc(ctx, trig), "n": ctx.shard * 100000 + b, "trigger": trig}])
+        doc = mk_doc(ctx, trig)
+        if not trig and ctx.rng.random() < 0.35:
+            doc.features.add("path_value_reserved")     # path arguments that need percent-encoding
+        run_batch(ctx, [{"doc": doc, "n": ctx.shard * 100000 + b, "trigger": trig}])
+    # the exhaustive shape catalogue as REQUEST bodies: every wrapper(wrapper(leaf)) as a required JSON body
+    cat = list(enumerate(shapes.all_shapes(2 if ctx.quick else 3)))
+    chunks = [cat[i:i + 20] for i in range(0, len(cat), 20)]
+    for ci, chunk in enumerate(chunks):
+        if ctx.mine(ci):
+            sd = shapes.request_document(chunk)
+            calls = []
+            for op in sd.ops:
+                for k, mode in enumerate(["max", "random", "nulls", "min"]):
+                    body = instgen.instance(ctx.rng, op["body"]["schema"], sd.sexp, mode)
+                    calls.append({"id": f"{op['seg']}-{k}", "seg": op["seg"], "http": "POST", "args": [{"body": body}],
+                                  "plan": {"status": 204, "content_hex": ""},
+                                  "_exp": {"op": op, "supplied": [], "body": body, "omitted": []}})
+            run_batch(ctx, [{"doc": sd, "n": ctx.shard * 100000 + 70000 + ci, "trigger": set(), "calls": calls}])
 
 
 def replay(ctx: Ctx, file: dict) -> None:
